@@ -82,7 +82,14 @@ def check(sc, obs):
             and not any(x.endswith("fail") for _, x in sc["disps"]):
         return (f"the task asked for its own cancellation as the last statement of the scope body but ended {obs.get('task_end')!r} "
                 f"(block outcome {obs.get('outcome')!r})")
-    user_cleanup_fails = any(x.endswith("fail") for _, x in sc["disps"]) or any(e.endswith("fail") for e, _ in sc["disps"])
+    # "unless cleanup itself fails" (C02): a cleanup error legitimately replaces a cancellation that the *body* received (or
+    # one received while entering).  A cancellation delivered later - while the cleanups themselves are running or the scope
+    # waits for its tasks - is not a body outcome that cleanup may replace: the task must end cancelled.
+    exit_fails = any(x.endswith("fail") for _, x in sc["disps"])
+    enter_fails = any(e.endswith("fail") for e, _ in sc["disps"])
+    during_exit = obs.get("body_end_time") is not None and sc["cancel_at"] is not None and sc["cancel_at"] > obs["body_end_time"] \
+        and obs.get("body_raised") is None
+    user_cleanup_fails = enter_fails or (exit_fails and not during_exit)
     if obs.get("cancel_delivered") and obs.get("task_end") != "cancelled" and not user_cleanup_fails:
         return (f"a cancellation was delivered at t={sc['cancel_at']} but the task ended {obs.get('task_end')!r} "
                 f"(block outcome {obs.get('outcome')!r})")
